@@ -17,7 +17,7 @@ import (
 func TestC11CloseQueued(t *testing.T) {
 	const name = "TestC11CloseQueued"
 	rec := evid.New("C11", name, "2..6 caller goroutines released together on one client (or a fresh clone), each issuing 1..2 calls; the server never answers the calls of the first caller and answers the others at once; the client is closed 20, 50 or 100 ms after the start, i.e. while one call is in flight and the others wait for the client; real time; "+
-		"oracle: every call returns within 10 s after the start (an error, or the response echoing its own identifier) - a call that never returns is a hang; non-trivial = three or more callers (at least two queued when Close arrives); distinct by case").Attach(t)
+		"oracle: every call returns within 30 s after the start (an error, or the response echoing its own identifier) - a call that never returns is a hang; non-trivial = three or more callers (at least two queued when Close arrives); distinct by case").Attach(t)
 	if rp := evid.LoadReplay(name); rp != nil {
 		var c c10Case
 		if err := json.Unmarshal(rp.Case, &c); err != nil {
@@ -31,7 +31,7 @@ func TestC11CloseQueued(t *testing.T) {
 		return
 	}
 	rapid.Check(t, func(rt *rapid.T) {
-		c := c10Case{FreshClone: rapid.Bool().Draw(rt, "clone"), CloseAfterMs: rapid.SampledFrom([]int{20, 50, 100}).Draw(rt, "close-after-ms"), HangAfterS: 10}
+		c := c10Case{FreshClone: rapid.Bool().Draw(rt, "clone"), CloseAfterMs: rapid.SampledFrom([]int{20, 50, 100}).Draw(rt, "close-after-ms"), HangAfterS: 30}
 		n := rapid.IntRange(2, 6).Draw(rt, "callers")
 		for ci := 0; ci < n; ci++ {
 			var calls []callPlan
